@@ -43,6 +43,10 @@ ASSUMPTIONS = [
     "WKT / network geometry exact (str(float) round-trips)",
     "ids of tracks, nodes and edges are non-empty strings over [A-Za-z0-9_.-]",
     "WKT export is defined for ENU and geographic tracks only (Track.toWKT has no ECEF branch; 'planimetric' coordinates)",
+    "a track / network object may be exported / written several times and edited in place in between (position.setX/setY, "
+    "Track.setObs, obs.position replaced, Track.addObs, Track.translate / scale on ENU data, moving a node = both geometry ends "
+    "and the Node); every export is judged against the coordinates the object holds at that time, recomputed from the case "
+    "(set... values exactly; after translate / scale x + t / x * h to 4 ulp)",
 ]
 
 SRID_CLASS = {"ENU": ENUCoords, "GEO": GeoCoords, "ECEF": ECEFCoords}
@@ -568,8 +572,12 @@ def body_gpx(case):
 
 # =================================================================================================
 # (iii) network CSV
+# one slot of the edit history: (kind, two selectors, new vertex); kind 0 = slot unused
+_NET_EDIT = st.tuples(st.sampled_from(range(8)), st.sampled_from(range(8)), st.sampled_from(range(8)), _VERTEX)
+
+
 def _mk_net(t):
-    salt, srid_i, node_list, edge_list, sep_i, h, verbose = t
+    salt, srid_i, node_list, edge_list, sep_i, h, verbose, raw_edits, same_file = t
     srid = ["ENU", "GEO"][_ch(salt, 50, srid_i, 2)]
     seen, nodes = set(), []
     for j, (nid_i, v) in enumerate(node_list):
@@ -591,14 +599,57 @@ def _mk_net(t):
         out.append({"id": eid, "s": src, "t": tgt, "o": [0, 1, -1][k % 3],
                     "mid": [_dec_vertex(srid, salt, 100 + 10 * j + i, v) for i, v in enumerate(mid)]})
     return {"srid": srid, "nodes": nodes, "edges": out, "sep": [",", ";"][_ch(salt, 51, sep_i, 2)],
-            "h": _ch(salt, 52, h, 2), "verbose": _ch(salt, 53, verbose, 4) == 3}
+            "h": _ch(salt, 52, h, 2), "verbose": _ch(salt, 53, verbose, 4) == 3,
+            "edits": _mk_net_edits(srid, salt, 300, raw_edits, nodes, out), "same_file": bool(_ch(salt, 54, same_file, 2))}
 
 
 def strat_net():
     r = lambda n: st.sampled_from(range(n))
     edge = st.tuples(_IDENT, r(108), st.lists(_VERTEX, min_size=0, max_size=4))
     return st.tuples(_SALT, r(2), st.lists(st.tuples(_IDENT, _VERTEX), min_size=1, max_size=5),
-                     st.lists(edge, min_size=1, max_size=6), r(2), r(2), r(4)).map(_mk_net)
+                     st.lists(edge, min_size=1, max_size=6), r(2), r(2), r(4),
+                     st.tuples(_NET_EDIT, _NET_EDIT), r(2)).map(_mk_net)
+
+
+def _differs(val, want, ulps):
+    """exact comparison (ulps = 0: values written by a set... call or never touched) or to a few ulp (values produced
+    by an in-place translate / scale, recomputed here as x + t / x * h)"""
+    if ulps == 0:
+        return val != want
+    return not abs(val - want) <= ulps * math.ulp(max(abs(float(val)), abs(float(want))))
+
+
+_NET_EDITS = ["absent", "none", "mid-set", "mid-obs", "node", "translate", "absent", "node"]
+
+
+def _mk_net_edits(srid, salt, pos, raw, nodes, edges):
+    """in-place edits of the live network between two writes (each followed by a write + read + compare)"""
+    out = []
+    for j, (kind_i, a, b, v) in enumerate(raw):
+        kind = _NET_EDITS[_ch(salt, pos + 10 * j, kind_i, len(_NET_EDITS))]
+        if kind == "absent":
+            continue
+        xy = _dec_vertex(srid, salt, pos + 10 * j + 1, v)
+        a = _ch(salt, pos + 10 * j + 2, a, 8)
+        b = _ch(salt, pos + 10 * j + 3, b, 8)
+        if kind == "translate" and srid != "ENU":          # Track.translate is defined for ENU tracks only
+            kind = "node"
+        if kind.startswith("mid"):
+            with_mid = [k for k, e in enumerate(edges) if e["mid"]]
+            if not with_mid:
+                kind = "node"
+            else:
+                e = with_mid[a % len(with_mid)]
+                out.append({"op": "mid", "how": kind[4:], "e": e, "k": b % len(edges[e]["mid"]), "xy": xy})
+                continue
+        if kind == "node":
+            used = sorted(set([e["s"] for e in edges] + [e["t"] for e in edges]))
+            out.append({"op": "node", "n": used[a % len(used)], "xy": xy})
+        elif kind == "translate":
+            out.append({"op": "translate", "d": xy})
+        else:
+            out.append({"op": "none"})
+    return out
 
 
 def _net_geoms(case):
@@ -610,24 +661,78 @@ def _net_geoms(case):
     return out
 
 
-def body_net(case):
-    srid = case["srid"]
-    nodes = case["nodes"]
-    geoms = _net_geoms(case)
+def _net_build(case):
+    srid, nodes = case["srid"], case["nodes"]
     net = Network()
-    for e, g in zip(case["edges"], geoms):
+    for e, g in zip(case["edges"], _net_geoms(case)):
         tr = Track([Obs(_coords(srid, p), ObsTime()) for p in g])
         edge = Edge(e["id"], tr)
         edge.orientation = e["o"]
         s, t = nodes[e["s"]], nodes[e["t"]]
         net.addEdge(edge, Node(s[0], _coords(srid, s[1:])), Node(t[0], _coords(srid, t[1:])))
-    with _TmpDir() as d:
-        path = os.path.join(d, "net.csv")
-        NetworkWriter.writeToCsv(net, path, separator=case["sep"], h=case["h"])
-        fmt = NetworkFormat({"pos_edge_id": 0, "pos_source": 1, "pos_target": 2, "pos_direction": 3, "pos_wkt": 4,
-                             "separator": case["sep"], "header": case["h"], "srid": srid})
-        got = NetworkReader.readFromFile(path, fmt, verbose=case.get("verbose", False))
+    return net
 
+
+def _net_edit_data(case, ed):
+    """the case data after the edit (pure; the oracle's side)"""
+    new = dict(case)
+    new["nodes"] = [list(n) for n in case["nodes"]]
+    new["edges"] = [dict(e, mid=[list(m) for m in e["mid"]]) for e in case["edges"]]
+    if ed["op"] == "mid":
+        new["edges"][ed["e"]]["mid"][ed["k"]] = list(ed["xy"])
+    elif ed["op"] == "node":
+        new["nodes"][ed["n"]][1:] = list(ed["xy"])
+    elif ed["op"] == "translate":
+        tx, ty = ed["d"]
+        for n in new["nodes"]:
+            n[1], n[2] = n[1] + tx, n[2] + ty
+        for e in new["edges"]:
+            e["mid"] = [[m[0] + tx, m[1] + ty] for m in e["mid"]]
+    return new
+
+
+def _net_edit_live(net, case, ed):
+    """the same edit done in place on the tracklib objects that were already written once"""
+    srid = case["srid"]
+    if ed["op"] == "mid":
+        geom = net.EDGES[case["edges"][ed["e"]]["id"]].geom
+        if ed["how"] == "obs":
+            geom.setObs(ed["k"] + 1, Obs(_coords(srid, ed["xy"]), ObsTime()))
+        else:
+            pos = geom.getObs(ed["k"] + 1).position
+            pos.setX(ed["xy"][0])
+            pos.setY(ed["xy"][1])
+    elif ed["op"] == "node":
+        for e in case["edges"]:
+            edge = net.EDGES[e["id"]]
+            ends = ([(0, edge.source)] if e["s"] == ed["n"] else []) + (
+                [(edge.geom.size() - 1, edge.target)] if e["t"] == ed["n"] else [])
+            for k, node in ends:
+                pos = edge.geom.getObs(k).position
+                pos.setX(ed["xy"][0])
+                pos.setY(ed["xy"][1])
+                node.coord.setX(ed["xy"][0])
+                node.coord.setY(ed["xy"][1])
+    elif ed["op"] == "translate":
+        tx, ty = ed["d"]
+        for e in case["edges"]:
+            net.EDGES[e["id"]].geom.translate(tx, ty)
+        for nid in list(net.NODES.keys()):
+            net.NODES[nid].coord.translate(tx, ty)
+
+
+def _net_write_read(net, case, path):
+    NetworkWriter.writeToCsv(net, path, separator=case["sep"], h=case["h"])
+    fmt = NetworkFormat({"pos_edge_id": 0, "pos_source": 1, "pos_target": 2, "pos_direction": 3, "pos_wkt": 4,
+                         "separator": case["sep"], "header": case["h"], "srid": case["srid"]})
+    return NetworkReader.readFromFile(path, fmt, verbose=case.get("verbose", False))
+
+
+def _net_compare(got, case, ulps=0):
+    """got: the Network returned by the reader; case: the data that the written network held at the time of writing"""
+    srid = case["srid"]
+    nodes = case["nodes"]
+    geoms = _net_geoms(case)
     want_ids = [e["id"] for e in case["edges"]]
     got_ids = [str(k) for k in got.EDGES.keys()]
     if got_ids != want_ids:
@@ -658,13 +763,39 @@ def body_net(case):
             pos = gg.getObs(i).position
             if not isinstance(pos, SRID_CLASS[srid]):
                 raise Violation("network-srid", "edge %s vertex %d read as %s" % (e["id"], i, type(pos).__name__))
-            if pos.getX() != p[0] or pos.getY() != p[1]:
+            if _differs(pos.getX(), p[0], ulps) or _differs(pos.getY(), p[1], ulps):
                 raise Violation("network-geometry", "edge %s vertex %d: wrote %r, read (%r, %r)" % (
                     e["id"], i, p, pos.getX(), pos.getY()))
         for what, node, p in (("source", ge.source, g[0]), ("target", ge.target, g[-1])):
-            if node.coord.getX() != p[0] or node.coord.getY() != p[1]:
+            if _differs(node.coord.getX(), p[0], ulps) or _differs(node.coord.getY(), p[1], ulps):
                 raise Violation("network-node-position", "edge %s %s node %s at (%r, %r), geometry end %r" % (
                     e["id"], what, node.id, node.coord.getX(), node.coord.getY(), p))
+
+
+def body_net(case):
+    srid = case["srid"]
+    edits = case.get("edits") or []
+    net = _net_build(case)
+    cur, ulps, changed = case, 0, 0
+    with _TmpDir() as d:
+        _net_compare(_net_write_read(net, case, os.path.join(d, "net.csv")), case)
+        # the SAME network object, edited in place and written again: the file must hold the edited data
+        for n, ed in enumerate(edits):
+            new = _net_edit_data(cur, ed)
+            _net_edit_live(net, cur, ed)
+            if ed["op"] == "translate":
+                ulps = 4
+            if _net_geoms(new) != _net_geoms(cur):
+                changed += 1
+            cur = new
+            fname = "net.csv" if case.get("same_file", True) else "net%d.csv" % (n + 1)
+            try:
+                _net_compare(_net_write_read(net, case, os.path.join(d, fname)), cur, ulps)
+            except Violation as v:
+                raise Violation(v.key + "-rewrite", "write no. %d of the same network object, after in-place edit %r: %s" % (
+                    n + 2, ed, v.msg))
+
+    geoms = _net_geoms(case)
     rev_multi = any(e["o"] == -1 and len(e["mid"]) >= 1 for e in case["edges"])
     cls = ["srid-" + srid, "sep-" + repr(case["sep"]), "h-%d" % case["h"], "edges-%d" % min(len(case["edges"]), 4)]
     for o in sorted(set(e["o"] for e in case["edges"])):
@@ -677,38 +808,131 @@ def body_net(case):
         cls.append("parallel-edges")
     if any("e" in repr(float(c)) for g in geoms for p in g for c in p):
         cls.append("exponent-notation")
-    return {"nt": rev_multi, "cls": cls}
+    cls.append("writes-%d" % (1 + len(edits)))
+    for op in sorted(set(_edit_name(ed) for ed in edits)):
+        cls.append("edit-" + op)
+    if changed:
+        cls.append("rewrite-after-geometry-change")
+    return {"nt": rev_multi or changed > 0, "cls": cls}
+
+
+def _edit_name(ed):
+    return ed["op"] + ("-" + ed["how"] if ed.get("how") else "")
 
 
 # =================================================================================================
 # (iv) WKT text
+_WKT_EDITS = ["absent", "none", "setxy", "setobs", "setpos", "translate", "scale", "add", "absent", "setxy"]
+_SCALES = [2.0, 0.5, -1.0, 3.0, 0.1, 1e-3, 7, 1.0]
+_WKT_EDIT = st.tuples(st.sampled_from(range(len(_WKT_EDITS))), st.sampled_from(range(8)), _VERTEX)
+
+
+def _mk_wkt_edits(srid, salt, pos, raw, npts):
+    """in-place edits of the live track between two exports (each followed by toWKT + parseWkt + compare)"""
+    out = []
+    for j, (kind_i, a, v) in enumerate(raw):
+        kind = _WKT_EDITS[_ch(salt, pos + 10 * j, kind_i, len(_WKT_EDITS))]
+        if kind == "absent":
+            continue
+        if kind in ("translate", "scale") and srid != "ENU":     # Track.translate / scale: ENU tracks only
+            kind = "setxy"
+        xy = _dec_vertex(srid, salt, pos + 10 * j + 1, v)
+        a = _ch(salt, pos + 10 * j + 2, a, 8)
+        if kind in ("setxy", "setobs", "setpos"):
+            out.append({"op": kind, "i": a % npts, "xy": xy})
+        elif kind == "translate":
+            out.append({"op": kind, "d": xy})
+        elif kind == "scale":
+            out.append({"op": kind, "h": _SCALES[a]})
+        elif kind == "add":
+            out.append({"op": kind, "xy": xy})
+            npts += 1
+        else:
+            out.append({"op": "none"})
+    return out
+
+
 def _mk_wkt(t):
-    salt, srid_i, vs = t
+    salt, srid_i, vs, raw_edits = t
     srid = ["ENU", "GEO"][_ch(salt, 50, srid_i, 2)]
     pts = []
     for j, (v, c) in enumerate(vs):
         sel = _ch(salt, 60 + j, v[0], 64)
         pts.append(_dec_xy(srid, sel, v[1], v[2]) + [_dec_height(sel, c)])
-    return {"srid": srid, "pts": pts}
+    return {"srid": srid, "pts": pts, "edits": _mk_wkt_edits(srid, salt, 300, raw_edits, len(pts))}
 
 
 def strat_wkt():
     return st.tuples(_SALT, st.sampled_from(range(2)),
-                     st.lists(st.tuples(_VERTEX, _U), min_size=1, max_size=8)).map(_mk_wkt)
+                     st.lists(st.tuples(_VERTEX, _U), min_size=1, max_size=8),
+                     st.tuples(_WKT_EDIT, _WKT_EDIT, _WKT_EDIT)).map(_mk_wkt)
+
+
+def _wkt_edit_data(pts, ed):
+    """the planimetric coordinates after the edit (pure; the oracle's side)"""
+    pts = [list(p[:2]) for p in pts]
+    op = ed["op"]
+    if op in ("setxy", "setobs", "setpos"):
+        pts[ed["i"]] = list(ed["xy"])
+    elif op == "translate":
+        pts = [[p[0] + ed["d"][0], p[1] + ed["d"][1]] for p in pts]
+    elif op == "scale":
+        pts = [[p[0] * ed["h"], p[1] * ed["h"]] for p in pts]
+    elif op == "add":
+        pts.append(list(ed["xy"]))
+    return pts
+
+
+def _wkt_edit_live(tr, srid, ed):
+    op = ed["op"]
+    if op == "setxy":
+        pos = tr.getObs(ed["i"]).position
+        pos.setX(ed["xy"][0])
+        pos.setY(ed["xy"][1])
+    elif op == "setobs":
+        tr.setObs(ed["i"], Obs(_coords(srid, ed["xy"]), ObsTime()))
+    elif op == "setpos":
+        tr.getObs(ed["i"]).position = _coords(srid, ed["xy"])
+    elif op == "translate":
+        tr.translate(ed["d"][0], ed["d"][1])
+    elif op == "scale":
+        tr.scale(ed["h"])
+    elif op == "add":
+        tr.addObs(Obs(_coords(srid, ed["xy"]), ObsTime()))
+
+
+def _wkt_check(tr, pts, ulps, tag):
+    text = tr.toWKT()
+    got = TrackReader.parseWkt(text)
+    if got.size() != len(pts):
+        raise Violation(tag + "-count", "%d points exported as %r, parsed %d" % (len(pts), text[:200], got.size()))
+    for i, p in enumerate(pts):
+        pos = got.getObs(i).position
+        if _differs(pos.getX(), p[0], ulps) or _differs(pos.getY(), p[1], ulps):
+            raise Violation(tag + "-coord", "point %d: exported %r, parsed (%r, %r) from %r" % (
+                i, p[:2], pos.getX(), pos.getY(), text[:200]))
+    return text
 
 
 def body_wkt(case):
     srid, pts = case["srid"], case["pts"]
+    edits = case.get("edits") or []
     tr = Track([Obs(_coords(srid, p), ObsTime()) for p in pts])
-    text = tr.toWKT()
-    got = TrackReader.parseWkt(text)
-    if got.size() != len(pts):
-        raise Violation("wkt-count", "%d points exported as %r, parsed %d" % (len(pts), text[:200], got.size()))
-    for i, p in enumerate(pts):
-        pos = got.getObs(i).position
-        if pos.getX() != p[0] or pos.getY() != p[1]:
-            raise Violation("wkt-coord", "point %d: exported %r, parsed (%r, %r) from %r" % (
-                i, p[:2], pos.getX(), pos.getY(), text[:200]))
+    _wkt_check(tr, pts, 0, "wkt")
+    # the SAME track object, edited in place and exported again: the text must hold the edited coordinates
+    cur, ulps, changed = [list(p[:2]) for p in pts], 0, 0
+    for n, ed in enumerate(edits):
+        new = _wkt_edit_data(cur, ed)
+        _wkt_edit_live(tr, srid, ed)
+        if ed["op"] in ("translate", "scale"):
+            ulps = 4
+        if new != cur:
+            changed += 1
+        cur = new
+        try:
+            _wkt_check(tr, cur, ulps, "wkt-reexport")
+        except Violation as v:
+            raise Violation(v.key, "export no. %d of the same track object, after in-place edit %r: %s" % (n + 2, ed, v.msg))
     frac = any(float(c) != int(c) for p in pts for c in p[:2] if abs(c) < 1e15)
     expo = any("e" in repr(float(c)) for p in pts for c in p[:2])
     cls = ["srid-" + srid, "points-%d" % min(len(pts), 4)]
@@ -716,7 +940,22 @@ def body_wkt(case):
         cls.append("exponent-notation")
     if any(isinstance(c, int) for p in pts for c in p[:2]):
         cls.append("int-coordinate")
-    return {"nt": len(pts) >= 2 and (frac or expo), "cls": cls}
+    cls.append("exports-%d" % (1 + len(edits)))
+    for op in sorted(set(ed["op"] for ed in edits)):
+        cls.append("edit-" + op)
+    if changed:
+        cls.append("reexport-after-coordinate-change")
+    if any(ed["op"] != "add" and a != b for ed, a, b in _wkt_steps(pts, edits)):
+        cls.append("reexport-after-same-size-change")
+    return {"nt": (len(pts) >= 2 and (frac or expo)) or changed > 0, "cls": cls}
+
+
+def _wkt_steps(pts, edits):
+    cur = [list(p[:2]) for p in pts]
+    for ed in edits:
+        new = _wkt_edit_data(cur, ed)
+        yield ed, cur, new
+        cur = new
 
 
 # =================================================================================================
@@ -789,12 +1028,18 @@ def _mk_seq(t):
             for j in range(max(1, len(nodes) - 1)):
                 edges.append({"id": "e%d" % j, "s": j, "t": (j + 1) % len(nodes), "o": [0, 1, -1][(f1 + j + perm_i) % 3],
                               "mid": mids if j == 0 else []})
+            fl = fixes[-1]
+            raw = [(tf_i * 2 + f1, perm_i % 8, mode, (fl[0] % 64, fl[3], fl[2])),
+                   (perm_i % 8, tf_i, f2, (fl[0] // 8, fl[2], fl[3]))]
             steps.append({"op": "network", "srid": srid, "nodes": nodes, "edges": edges,
-                          "sep": [",", ";"][c(2, sep_i, 2)], "h": c(3, h, 2), "verbose": False})
+                          "sep": [",", ";"][c(2, sep_i, 2)], "h": c(3, h, 2), "verbose": False,
+                          "edits": _mk_net_edits(srid, salt, base + 300, raw, nodes, edges), "same_file": bool(c(4, f2, 2))})
         else:
             srid = ["ENU", "GEO"][c(1, srid_i, 2)]
+            raw = [(f[0] % len(_WKT_EDITS), f[4] % 8, ((f[0] // 8) % 64, f[1], f[2])) for f in fixes2]
             steps.append({"op": "wkt", "srid": srid,
-                          "pts": [_dec_xy(srid, c(10 + j, f[0], 64), f[1], f[2]) + [0.0] for j, f in enumerate(fixes)]})
+                          "pts": [_dec_xy(srid, c(10 + j, f[0], 64), f[1], f[2]) + [0.0] for j, f in enumerate(fixes)],
+                          "edits": _mk_wkt_edits(srid, salt, base + 300, raw, len(fixes))})
     return {"init": init, "steps": steps}
 
 
@@ -851,9 +1096,11 @@ def body_seq(case):
                 else:
                     r_fmt = GPX_READ_FMT
             elif op == "network":
-                body_net(stp)
+                if "rewrite-after-geometry-change" in body_net(stp)["cls"]:
+                    cls.add("network-rewritten-after-in-place-edit")
             elif op == "wkt":
-                body_wkt(stp)
+                if "reexport-after-coordinate-change" in body_wkt(stp)["cls"]:
+                    cls.add("wkt-reexported-after-in-place-edit")
             else:
                 return {"undef": True}
         except Violation as v:
@@ -882,12 +1129,16 @@ RULE = ("csv: Hypothesis over (srid ENU/GEO/ECEF, 1..8 fixes, with/without U and
         "its defaults, 0..2 extra feature columns); csv_configs: the complete product srid x column layout (38 layouts) x separator x h "
         "x time format on a fixed 4-fix track with month/year-end stamps; gpx: 1..3 tracks of 1..6 fixes, one file / one file per track, "
         "Track or TrackCollection argument, srid GEO/ENU, readFromFile/readFromGpx; network: 1..5 nodes, 1..6 edges, 3 orientations, "
-        "0..4 interior vertices, loops and parallel edges, separators ',' ';', h 0/1, ENU/GEO; wkt: toWKT -> parseWkt. "
+        "0..4 interior vertices, loops and parallel edges, separators ',' ';', h 0/1, ENU/GEO, then 0..2 in-place edits of the SAME network "
+        "object (interior vertex moved by setX/setY or setObs, node moved, whole network translated, nothing) each followed by another "
+        "write (same or new file) + read judged against the edited data; wkt: toWKT -> parseWkt, then 0..3 in-place edits of the SAME "
+        "track (setX/setY, setObs, position replaced, translate, scale, addObs, nothing) each followed by another export + parse judged "
+        "against the edited coordinates; the network / wkt steps of a sequence carry such edit histories too. "
         "Coordinates: one float in [-1,1] per coordinate decoded per point as 1/8 lattice, millimetre decimals, raw double, |v| >= 1e7, "
         "rounding tie in the first dropped decimal, or an awkward constant; stamps: month/year-end days, first/last second and ms. "
         "Non-trivial: CSV with a non-identity column permutation or separator != ',' or a stamp within 1 s of a month/year end; GPX with "
         "several tracks or such a stamp; network with a reverse-oriented multi-vertex edge; WKT with >= 2 points and a fractional or "
-        "exponent-notation coordinate; sequence (2..5 csv / gpx one-file / gpx file-per-track / network / wkt round trips in one "
+        "exponent-notation coordinate, or a re-export / re-write after an edit that changed a coordinate; sequence (2..5 csv / gpx one-file / gpx file-per-track / network / wkt round trips in one "
         "process, formats set by the user once, per step for reading only, or per step for both, never reset in between) in which a "
         "CSV step with a time column relies on a print format set before an earlier GPX step or on a read format set before an "
         "earlier step. Distinct = hash of the case.")
